@@ -41,7 +41,8 @@ Inductive static_id :=
 | SNolibxmlExport    (* topology-xml.c hwloc_nolibxml_export: checked / nolibxml *)
 | SLibxmlInit        (* topology-xml-libxml.c hwloc_libxml2_init_once: checked / hwloc_libxml2_needs_cleanup *)
 | SSynthWarned.      (* topology-synthetic.c hwloc__export_synthetic_memory_children: `static int warned`,
-                        read and then written UNCONDITIONALLY each time the warning condition holds *)
+                        `if (!warned) { fprintf(..); warned = 1; }` (since fix 128454f; the store used to be
+                        unconditional) whenever the warning condition holds *)
 
 Definition static_eqb (a b : static_id) : bool :=
   match a, b with
@@ -288,11 +289,9 @@ Inductive cop :=
 | CExportSynth (warns : bool).
     (* hwloc_topology_export_synthetic; warns = HWLOC_SYNTHETIC_VERBOSE is set and the topology has a
        memory-side cache with several memory children (a tree-level fact, input of the step): the
-       export then goes through `if (!warned) fprintf(..); warned = 1;` *)
+       export then goes through `if (!warned) { fprintf(..); warned = 1; }` *)
 
-Definition uses_statics (c : cop) : bool := match c with CExportXml => true | _ => false end.
-(* a call that writes a process-wide static every time, warm or not *)
-Definition always_writes (c : cop) : bool := match c with CExportSynth true => true | _ => false end.
+Definition uses_statics (c : cop) : bool := match c with CExportXml | CExportSynth true => true | _ => false end.
 
 Definition result := list nat.
 
@@ -314,9 +313,9 @@ Definition cons_run (t : nat) (tp : topo) (g : glob) (c : cop) : topo * glob * r
   | CTraverse | CTypePrint | CLocalNodes | CSets | CBitmap | CMaMeta | CExportSynth false =>
       (tp, g, [], [Rd (LTree t)])
   | CExportSynth true =>
-      (tp, mkGlob (if mem_static SSynthWarned (g_checked g) then g_checked g else SSynthWarned :: g_checked g)
-                  (g_envset g) (g_libxml g) (g_users g), [],
-       [Rd (LTree t); Rd (LStChecked SSynthWarned); Wr (LStChecked SSynthWarned) 1])
+      if mem_static SSynthWarned (g_checked g) then (tp, g, [], [Rd (LTree t); Rd (LStChecked SSynthWarned)])
+      else (tp, mkGlob (SSynthWarned :: g_checked g) (g_envset g) (g_libxml g) (g_users g), [],
+            [Rd (LTree t); Rd (LStChecked SSynthWarned); Wr (LStChecked SSynthWarned) 1])
   | CCpukinds => (tp, g, [], [Rd (LTree t); Rd (LCpukinds t)])
   | CDistRelease => (tp, g, [], [])
   | CDistGet =>
@@ -366,14 +365,16 @@ Fixpoint set_lives (ds : list dist) (lives : list nat) : list dist :=
 
 Definition do_restrict (t : nat) (tp : topo) (lives : list nat) : topo * list ev :=
   let '(ds, e1) := (if t_nodist tp then (t_dists tp, []) else dists_invalidate t (set_lives (t_dists tp) lives)) in
-  let '(ms, e2) := (if t_nomemattr tp then (t_mattrs tp, []) else mas_need_refresh_from t 0 (t_mattrs tp)) in
+  (* since fix 12fb556 not guarded by HWLOC_TOPOLOGY_FLAG_NO_MEMATTRS: user attributes may exist *)
+  let '(ms, e2) := mas_need_refresh_from t 0 (t_mattrs tp) in
   (set_mattrs (set_dists tp ds) ms,
    Rd (LTree t) :: Wr (LTree t) 1 :: e1 ++ e2 ++ (if t_nocpukinds tp then [] else [Wr (LCpukinds t) 1]) ++ [Wr (LTree t) 1]).
 
 Definition do_refresh (t : nat) (tp : topo) : topo * list ev :=
   let e0 := if t_nocpukinds tp then [] else [Rd (LTree t); Wr (LCpukinds t) 1] in
   let '(ds, e1) := (if t_nodist tp then (t_dists tp, []) else dists_refresh t (t_dists tp)) in
-  let '(ms, e2) := (if t_nomemattr tp then (t_mattrs tp, []) else mas_refresh_from t 0 (t_mattrs tp)) in
+  (* since fix 12fb556 not guarded by HWLOC_TOPOLOGY_FLAG_NO_MEMATTRS *)
+  let '(ms, e2) := mas_refresh_from t 0 (t_mattrs tp) in
   (set_mattrs (set_dists tp ds) ms, Rd (LTree t) :: e0 ++ e1 ++ e2).
 
 Definition mod_run (t : nat) (tp : topo) (m : mop) : topo * result * list ev :=
@@ -578,6 +579,15 @@ Definition all_valid (s : state) : bool :=
 (* the first use of the statics an XML export consults has already happened *)
 Definition statics_warm (g : glob) : bool :=
   mem_static SNolibxmlExport (g_checked g) && (negb (g_libxml g) || mem_static SLibxmlInit (g_checked g)).
+
+(* the first use of the statics this consulting call consults has already happened *)
+Definition warm_for (g : glob) (c : cop) : bool :=
+  match c with
+  | CExportXml => statics_warm g
+  | CExportSynth true => mem_static SSynthWarned (g_checked g)
+  | _ => true
+  end.
+Definition all_statics_warm (g : glob) : bool := statics_warm g && mem_static SSynthWarned (g_checked g).
 
 Definition cons_on (t : nat) (p : list op) : bool :=
   forallb (fun o => is_cons o && Nat.eqb (op_topo o) t) p.
